@@ -57,6 +57,17 @@ func (c *ssoCase) describe() map[string]any {
 	}
 }
 
+// answerable lists the positions of the consumer services bound to HTTP-POST or HTTP-Redirect.
+func answerable(acs []spsim.ACS) []int {
+	var ks []int
+	for k, a := range acs {
+		if a.Binding == spsim.BindPost || a.Binding == spsim.BindRedirect {
+			ks = append(ks, k)
+		}
+	}
+	return ks
+}
+
 // conformantSSO draws a request a standards-conformant registered SP can produce.
 func conformantSSO(rng *rand.Rand) *ssoCase {
 	c := &ssoCase{}
@@ -107,13 +118,26 @@ func conformantSSO(rng *rand.Rand) *ssoCase {
 			a.ProtocolBinding = b
 		}
 	case 1:
-		k := rng.Intn(len(d.ACS))
-		a.ACSURL = d.ACS[k].Location
-		if rng.Intn(2) == 0 && (d.ACS[k].Binding == spsim.BindPost || d.ACS[k].Binding == spsim.BindRedirect) {
-			a.ProtocolBinding = d.ACS[k].Binding // the pair the request names is a registered one
+		// the request names one of its registered consumer URLs; a conformant service provider asks for an endpoint
+		// the IdP can answer on, and names the binding too when the URL is registered under more than one
+		if ks := answerable(d.ACS); len(ks) > 0 {
+			k := ks[rng.Intn(len(ks))]
+			a.ACSURL = d.ACS[k].Location
+			shared := false
+			for j := range d.ACS {
+				if j != k && d.ACS[j].Location == d.ACS[k].Location {
+					shared = true
+				}
+			}
+			if shared || rng.Intn(2) == 0 {
+				a.ProtocolBinding = d.ACS[k].Binding // the pair the request names is a registered one
+			}
 		}
 	case 2:
-		a.ACSIndex = d.ACS[rng.Intn(len(d.ACS))].Index
+		// AssertionConsumerServiceIndex stands alone (it excludes URL and ProtocolBinding) and names an answerable entry
+		if ks := answerable(d.ACS); len(ks) > 0 {
+			a.ACSIndex = d.ACS[ks[rng.Intn(len(ks))]].Index
+		}
 	}
 	a.IssueInstant = tsFrac(time.Now(), rng.Intn(10))
 	a.NameIDPolicy = rng.Intn(2) == 0
